@@ -189,6 +189,12 @@ class HostModel:
                 self.cur[src]['shared'] = True
                 spec['shared'] = True
             self._add(op['dst'], spec)
+        elif kind == 'poke_cfg':
+            cid = op['cfg']
+            if cid not in self.cur or self.cur[cid].get('holder') != 'Config':
+                raise InvalidHistory('poke of a config that is not held')
+            if op.get('section') not in SECTIONS:
+                raise InvalidHistory('bad poke section')
         elif kind == 'resolve':
             if op['cfg'] not in self.cur:
                 raise InvalidHistory('unknown config')
